@@ -37,6 +37,25 @@ def popcountW : Nat → Nat → Nat
   | 0, _ => 0
   | g + 1, x => x % 2 + popcountW g (x / 2)
 
+/-- the iterator `xs[..=pos].iter().rev().chain(xs.iter().rev().cycle())` (the column reader of the Myers traceback handlers):
+`first` = the items of the first part (`xs[..=pos]` reversed), `whole` = the items one pass of the cycled part yields (`xs`
+reversed), `taken` = number of items already drawn.  `Chain` yields the first part, then `Cycle` repeats the second for ever
+(an empty second part yields nothing). -/
+structure RevCyc (α : Type) where
+  first : List α
+  whole : List α
+  taken : Nat
+
+/-- construction; the slice `xs[..=pos]` panics for `pos ≥ xs.len()` -/
+def rcNew {α : Type} (xs : List α) (pos : Nat) : Res (RevCyc α) :=
+  if pos < xs.length then ok ⟨(xs.take (pos + 1)).reverse, xs.reverse, 0⟩ else panic
+
+/-- `it.next()` -/
+def rcNext {α : Type} (it : RevCyc α) : Option α × RevCyc α :=
+  (if it.taken < it.first.length then it.first[it.taken]?
+    else if it.whole.length = 0 then none else it.whole[(it.taken - it.first.length) % it.whole.length]?,
+   { it with taken := it.taken + 1 })
+
 /-- `T::one() << i` / `x <<= i` with a run-time shift amount on a `w`-bit word: `i ≥ w` panics (overflow check), bits shifted out
 are dropped -/
 theorem shl_one_ok {w i : Nat} (h : i < w) : shl w 1 i = ok (2 ^ i) := by
